@@ -310,11 +310,17 @@ def c12_5(ck, prog, rid='C12.5'):
             types[f['code']['v']] = (f.get('type') or {}).get('v')
     ACC = {'_dbus_header_set_field_basic': (1, 2), '_dbus_header_get_field_basic': (1, 2),
            'set_or_delete_string_field': (1, 2)}
+    # the file-local helper's parameters are found by role (its two int parameters: field code, then type code), so
+    # that reordering them changes nothing
+    for g in prog.by_name.get('set_or_delete_string_field', []):
+        ints = [k for k, p2 in enumerate(g.params) if (p2.get('t') or '') == 'int']
+        if len(ints) == 2:
+            ACC['set_or_delete_string_field'] = (ints[0], ints[1])
     n = 0
     for f in lib.prod_funcs(prog):
         for b, i, c in f.calls():
             pos = ACC.get(c.get('callee'))
-            if pos is None or len(c['args']) <= pos[1]:
+            if pos is None or len(c['args']) <= max(pos):
                 continue
             fa, ta = c['args'][pos[0]], c['args'][pos[1]]
             if not is_int(fa) or not is_int(ta):
